@@ -46,9 +46,24 @@ Definition consumed_is {A} (n : nat) (o : try_res A) : bool :=
 
 (* o0: Read over a reader that yields H and then fails with a sentinel error (never EOF);
    o1: Read over H ++ S1 then the sentinel; o2: Read over H ++ S2 then io.EOF *)
+(* idle cases: the head is delivered by a schedule of Read chunks, then the connection is idle; the harness's
+   reader counts successful Read calls and reports a Read attempted after the last chunk ("would block"):
+   o = Answered result k  |  AsksMore k.   CServeIdle: the same schedule through Server.ServeConn; answered =
+   the server wrote something before it attempted a Read on the idle connection. *)
 Inductive c09case :=
 | CReq (cfg : hcfg) (bsize : nat) (H S1 S2 : bytes) (o0 o1 o2 : try_res req_head)
-| CResp (cfg : hcfg) (bsize : nat) (H S1 S2 : bytes) (o0 o1 o2 : try_res resp_head).
+| CResp (cfg : hcfg) (bsize : nat) (H S1 S2 : bytes) (o0 o1 o2 : try_res resp_head)
+| CReqIdle (cfg : hcfg) (bsize : nat) (chunks : list bytes) (o : idle_res req_head)
+| CRespIdle (cfg : hcfg) (bsize : nat) (chunks : list bytes) (o : idle_res resp_head)
+| CServeIdle (chunks : list bytes) (answered : bool).
+
+Definition idle_res_eqb {A} (eq : A -> A -> bool) (a b : idle_res A) : bool :=
+  match a, b with
+  | Answered r k, Answered r' k' => try_res_eqb eq r r' && (k =? k')
+  | AsksMore k, AsksMore k' => k =? k'
+  | _, _ => false
+  end.
+Definition is_answered {A} (o : idle_res A) : bool := match o with Answered _ _ => true | _ => false end.
 
 Definition corr_ok (c : c09case) : bool :=
   match c with
@@ -60,6 +75,14 @@ Definition corr_ok (c : c09case) : bool :=
       try_res_eqb resp_head_eqb (resp_read cfg bs H PEOther) o0
       && try_res_eqb resp_head_eqb (resp_read cfg bs (H ++ S1) PEOther) o1
       && try_res_eqb resp_head_eqb (resp_read cfg bs (H ++ S2) PEEof) o2
+  | CReqIdle cfg bs chunks o => idle_res_eqb req_head_eqb (req_read_idle cfg bs chunks) o
+  | CRespIdle cfg bs chunks o => idle_res_eqb resp_head_eqb (resp_read_idle cfg bs chunks) o
+  | CServeIdle chunks answered =>
+      match req_read_idle default_cfg 4096 chunks with
+      | Answered (TOk _ _) _ | Answered (TErr _) _ => answered
+      | AsksMore _ => negb answered
+      | _ => true
+      end
   end.
 
 (* the property, judged on the implementation's three results: for a complete head the two continuations
@@ -74,4 +97,14 @@ Definition prop_ok (c : c09case) : bool :=
       if head_complete H
       then try_res_eqb resp_head_eqb o1 o2 && consumed_is (length H) o1 && consumed_is (length H) o2 && answered o0
       else true
+  (* a complete head that fits the buffer is answered without a Read beyond the one that delivered its last byte *)
+  | CReqIdle _ bs chunks o =>
+      let H := concat chunks in
+      if head_complete H && (length H <=? bs) then is_answered o else true
+  | CRespIdle _ bs chunks o =>
+      let H := concat chunks in
+      if head_complete H && (length H <=? bs) then is_answered o else true
+  | CServeIdle chunks ans =>
+      let H := concat chunks in
+      if head_complete H && (length H <=? 4096) then ans else true
   end.
